@@ -487,3 +487,70 @@ func (c *Ctx) boundaryRuleFn(key, name string, fns []*ssa.Function, match func(a
 		c.bad(fmt.Sprintf("%s:%s", key, name), token.NoPos, "found %d comparison(s) of this shape, expected at least %d: the range computation is not recognised (%s)", n, min, why)
 	}
 }
+
+// altForms lists the linear forms a value can take, expanding phis, sums and the results of new
+// helpers (each return is one alternative).
+func altForms(v ssa.Value, depth int) []linform {
+	if depth > 5 {
+		return []linform{linearB(v, 0)}
+	}
+	switch x := v.(type) {
+	case *ssa.Phi:
+		var out []linform
+		for _, e := range x.Edges {
+			if e != v {
+				out = append(out, altForms(e, depth+1)...)
+			}
+		}
+		return out
+	case *ssa.BinOp:
+		if x.Op == token.ADD || x.Op == token.SUB {
+			var out []linform
+			sign := 1
+			if x.Op == token.SUB {
+				sign = -1
+			}
+			for _, a := range altForms(x.X, depth+1) {
+				for _, b := range altForms(x.Y, depth+1) {
+					out = append(out, a.add(b, sign))
+				}
+			}
+			return out
+		}
+	case *ssa.Convert:
+		return altForms(x.X, depth)
+	case *ssa.ChangeType:
+		return altForms(x.X, depth)
+	case *ssa.Extract:
+		if call, ok := x.Tuple.(*ssa.Call); ok {
+			if rs := helperResults(call, x.Index); rs != nil {
+				var out []linform
+				for _, r := range rs {
+					out = append(out, altForms(r, depth+1)...)
+				}
+				return out
+			}
+		}
+	case *ssa.Call:
+		if rs := helperResults(x, 0); rs != nil {
+			var out []linform
+			for _, r := range rs {
+				out = append(out, altForms(r, depth+1)...)
+			}
+			return out
+		}
+	case *ssa.UnOp:
+		if x.Op == token.MUL {
+			if al, ok := x.X.(*ssa.Alloc); ok {
+				if sts := storesTo(al); len(sts) >= 1 && len(sts) <= 4 {
+					var out []linform
+					for _, st := range sts {
+						out = append(out, altForms(st.Val, depth+1)...)
+					}
+					return out
+				}
+			}
+		}
+	}
+	return []linform{linearB(v, 0)}
+}
